@@ -283,3 +283,62 @@ fn c02_patch_faults() {
     std::mem::forget((r, r2));
     std::mem::forget(bp);
 }
+
+//@ harness: c02_three_patch_step
+//@ property: C02
+//@ obligation: H-C02-a1
+//@ tier: thorough
+//@ encodes: Breakpoint::{enable, disable, is_enabled} on three breakpoints
+//@ symbolic: pristine image M0 (24 bytes), offsets of three pairwise distinct breakpoints 0..16, which are armed, which one the operation targets
+//@ bounds: one operation from an arbitrary state satisfying Inv - inductive step for three simultaneously live breakpoints (all three may share one ptrace word); unwind 26
+//@ oracle: as c02_two_patch_step, for three breakpoints
+//@ stubs: ptrace::read / write -> memory model
+//@ assumes: the three breakpoints have distinct addresses
+//@ timeout: 1800
+#[kani::proof]
+#[kani::stub(nix::sys::ptrace::read, stub_read)]
+#[kani::stub(nix::sys::ptrace::write, stub_write)]
+#[kani::unwind(26)]
+fn c02_three_patch_step() {
+    let m0 = init_mem();
+    let o = [any_off(), any_off(), any_off()];
+    kani::assume(o[0] != o[1] && o[0] != o[2] && o[1] != o[2]);
+    let b = [mk_bp(o[0], BrkptType::UserDefined, 1), mk_bp(o[1], BrkptType::Temporary, 0), mk_bp(o[2], BrkptType::UserDefined, 2)];
+    let e: [bool; 3] = kani::any();
+    let mut i = 0;
+    while i < 3 {
+        if e[i] {
+            unsafe { MEM[o[i]] = 0xCC };
+        }
+        b[i].enabled.set(e[i]);
+        b[i].saved_data.set(if e[i] { m0[o[i]] } else { kani::any() });
+        i += 1;
+    }
+    let t: usize = kani::any();
+    kani::assume(t < 3);
+    let r = if e[t] { b[t].disable() } else { b[t].enable() };
+    bsv!(r.is_ok(), "operation succeeds");
+    let m = mem();
+    let mut i = 0;
+    while i < 3 {
+        let now = if i == t { !e[i] } else { e[i] };
+        bsv!(b[i].is_enabled() == now, "only the targeted breakpoint changes state");
+        bsv!(m[o[i]] == if now { 0xCC } else { m0[o[i]] }, "each breakpoint byte per Inv (neighbours' INT3 neither clobbered nor resurrected)");
+        if now {
+            bsv!(b[i].saved_data.get() == m0[o[i]], "saved byte is pristine");
+        }
+        i += 1;
+    }
+    let mut k = 0;
+    while k < MEM_LEN {
+        if k != o[0] && k != o[1] && k != o[2] {
+            bsv!(m[k] == m0[k], "no byte outside the breakpoints differs from the pristine image");
+        }
+        k += 1;
+    }
+    kani::cover!(o[0] < 8 && o[1] < 8 && o[2] < 8 && e[0] && e[1] && !e[2] && t == 2, "arm a third breakpoint inside a word that already holds two");
+    kani::cover!(!e[0] && !e[1] && e[2] && t == 2, "lift the last one");
+    kani::cover!(true, "BSV-END");
+    std::mem::forget(r);
+    std::mem::forget(b);
+}
